@@ -25,8 +25,10 @@ CONSTANTS Senders, Receivers,    \* disjoint sets of thread ids (integers)
           SLOTS, BITS,
           MaxSpurious,           \* total spurious weak-CAS failures
           StaleFail,             \* may a failed CAS return a stale value (TRUE under C11)
-          OrdDeqLoad, OrdEnqLoad,  \* the first load of dequeue / of enqueue
-          OrdDeqOk, OrdDeqFail, OrdEnqOk, OrdEnqFail,
+          \* orderings per call site (send: dequeue(empty) then enqueue(full); recv: dequeue(full)
+          \* then enqueue(empty)): the first load, the CAS on success, the CAS on failure
+          OrdSDeqLoad, OrdSDeqOk, OrdSDeqFail, OrdSEnqLoad, OrdSEnqOk, OrdSEnqFail,
+          OrdRDeqLoad, OrdRDeqOk, OrdRDeqFail, OrdREnqLoad, OrdREnqOk, OrdREnqFail,
           Freeze                 \* TRUE: explore freeze mode (C08 step bound)
 
 Threads == Senders \cup Receivers
@@ -130,7 +132,8 @@ Fr(t) ==
 (* The first load of a dequeue / enqueue (Relaxed in the code). *)
 Q_Load(t, pcFrom, q, pcTo) ==
     LET f == Top(t)
-        ord == IF pcFrom \in {"s_ld", "r_ld"} THEN OrdDeqLoad ELSE OrdEnqLoad IN
+        ord == CASE pcFrom = "s_ld" -> OrdSDeqLoad [] pcFrom = "s_ld2" -> OrdSEnqLoad
+                 [] pcFrom = "r_ld" -> OrdRDeqLoad [] OTHER -> OrdREnqLoad IN
     /\ Fr(t)
     /\ f.pc = pcFrom
     /\ \E ts \in M!ReadTs(t, q, ord) :
@@ -177,14 +180,14 @@ S_DeqOk(t) ==
     /\ Fr(t)
     /\ f.pc = "s_deq" /\ f.cur % Radix # 0
     /\ M!Latest(EMPTYQ) = f.cur
-    /\ M!MRmw(t, EMPTYQ, OrdDeqOk, f.cur \div Radix)
+    /\ M!MRmw(t, EMPTYQ, OrdSDeqOk, f.cur \div Radix)
     /\ SetTop(t, [f EXCEPT !.idx = f.cur % Radix, !.pc = "s_write"])
     /\ UNCHANGED <<todo, cell, nextVal, sent, got, fate, ndeliv, nspur, frozen, bad>>
 
 S_DeqFail(t) ==
     /\ Fr(t)
     /\ Top(t).pc = "s_deq" /\ Top(t).cur % Radix # 0
-    /\ CasFail(t, EMPTYQ, OrdDeqFail)
+    /\ CasFail(t, EMPTYQ, OrdSDeqFail)
     /\ UNCHANGED <<todo, cell, nextVal, sent, got, fate, ndeliv, frozen, bad>>
 
 S_Write(t) ==
@@ -204,7 +207,7 @@ S_EnqOk(t) ==
     /\ Fr(t)
     /\ f.pc = "s_enq" /\ p < SLOTS
     /\ M!Latest(FULLQ) = f.cur
-    /\ M!MRmw(t, FULLQ, OrdEnqOk, Set(f.cur, p, f.idx))
+    /\ M!MRmw(t, FULLQ, OrdSEnqOk, Set(f.cur, p, f.idx))
     /\ sent' = Append(sent, f.val)
     /\ Finish(t)
     /\ UNCHANGED <<cell, nextVal, got, fate, ndeliv, nspur, frozen, bad>>
@@ -212,7 +215,7 @@ S_EnqOk(t) ==
 S_EnqFail(t) ==
     /\ Fr(t)
     /\ Top(t).pc = "s_enq" /\ FirstZero(Top(t).cur, 0) < SLOTS
-    /\ CasFail(t, FULLQ, OrdEnqFail)
+    /\ CasFail(t, FULLQ, OrdSEnqFail)
     /\ UNCHANGED <<todo, cell, nextVal, sent, got, fate, ndeliv, frozen, bad>>
 
 \* enqueue found no zero position: expect("No empty slot available") panics.
@@ -241,7 +244,7 @@ R_DeqOk(t) ==
     /\ Fr(t)
     /\ f.pc = "r_deq" /\ f.cur % Radix # 0
     /\ M!Latest(FULLQ) = f.cur
-    /\ M!MRmw(t, FULLQ, OrdDeqOk, f.cur \div Radix)
+    /\ M!MRmw(t, FULLQ, OrdRDeqOk, f.cur \div Radix)
     /\ SetTop(t, [f EXCEPT !.idx = f.cur % Radix, !.pc = "r_take"])
     /\ got' = Append(got, cell[f.cur % Radix])
     /\ UNCHANGED <<todo, cell, nextVal, sent, fate, ndeliv, nspur, frozen, bad>>
@@ -249,7 +252,7 @@ R_DeqOk(t) ==
 R_DeqFail(t) ==
     /\ Fr(t)
     /\ Top(t).pc = "r_deq" /\ Top(t).cur % Radix # 0
-    /\ CasFail(t, FULLQ, OrdDeqFail)
+    /\ CasFail(t, FULLQ, OrdRDeqFail)
     /\ UNCHANGED <<todo, cell, nextVal, sent, got, fate, ndeliv, frozen, bad>>
 
 R_Take(t) ==
@@ -273,14 +276,14 @@ R_EnqOk(t) ==
     /\ Fr(t)
     /\ f.pc = "r_enq" /\ p < SLOTS
     /\ M!Latest(EMPTYQ) = f.cur
-    /\ M!MRmw(t, EMPTYQ, OrdEnqOk, Set(f.cur, p, f.idx))
+    /\ M!MRmw(t, EMPTYQ, OrdREnqOk, Set(f.cur, p, f.idx))
     /\ Finish(t)
     /\ UNCHANGED <<cell, nextVal, sent, got, fate, ndeliv, nspur, frozen, bad>>
 
 R_EnqFail(t) ==
     /\ Fr(t)
     /\ Top(t).pc = "r_enq" /\ FirstZero(Top(t).cur, 0) < SLOTS
-    /\ CasFail(t, EMPTYQ, OrdEnqFail)
+    /\ CasFail(t, EMPTYQ, OrdREnqFail)
     /\ UNCHANGED <<todo, cell, nextVal, sent, got, fate, ndeliv, frozen, bad>>
 
 ----------------------------------------------------------------------------
